@@ -433,6 +433,7 @@ def execute(case, backend='sim', record=False):
             if viol is not None:
                 break
         fs = ds.fs
+        cnt.merge(ds.counters)
         cnt.hit('fs_calls', fs.calls)
         cnt.hit('listings', fs.listings)
         cnt.hit('fault:readdir_order_not_sorted', fs.shuffled_listings)
@@ -672,5 +673,6 @@ EXPECTED_PROBES = {
             'deleted_file_recreated_identical'],
     'C11': ['old_name_override_removed',
             'override_removed_default_visible'],
-    'C09': ['readdir_order_not_sorted', 'legacy_json_fallback_taken'],
+    'C09': ['readdir_order_not_sorted', 'legacy_json_fallback_taken',
+            'file_is_symlink', 'symlink_to_directory_decoy'],
 }
